@@ -192,6 +192,83 @@ def t2_filenames(ctx, r):
         if impl.startswith("/") or any(s in ("", ".", "..") for s in impl.split("/")):
             ctx.fail("name-not-normalised", f"_get_filename gives {impl!r}", {"op": op})
 
+PKG_SEGS = ["acme", "google", "cloud", "lib", "v1", "v1beta1", "v2alpha", "v1p1beta1", "v", "v1x", "v10", "my_api", "a1", "x_", "sub", "types", "v1p2", "vbeta", "version1", "lib2"]
+OPT_KEYS = ["transport", "metadata", "old-naming", "lazy-import", "add-iam-methods", "autogen-snippets", "rest-numeric-enums", "proto-plus-deps",
+            "warehouse-package-name", "python-gapic-name", "python-gapic-namespace", "python-gapic-foo", "python-gapic-", "foo", "go-gapic-package",
+            "Transport", "transport ", " metadata", "python-gapic-transport", "python-gapic-metadata", "name", "namespace", ""]
+OPT_VALS = [None, "true", "false", "grpc", "rest", "grpc+rest", "a=b", "a=b=c", "", " x ", "T", "True", "x+y+", "acme.v1+acme.v2", "=", "Acme"]
+
+
+def t2_naming_options(ctx, r):
+    """`Naming.build` (root package, namespace/name/version inference) and `Options.build` (the option multimap and the
+    Options instance) against the model that runs the PINNED patterns through the regex engine"""
+    import warnings
+    from google.protobuf import descriptor_pb2
+    from gapic.schema.naming import Naming
+    from gapic.utils import Options
+    ops, metas = [], []
+    for i in range(ctx.n(150, 2500)):
+        n = r.randint(1, 3)
+        base = [r.pick(PKG_SEGS) for _ in range(r.randint(1, 4))]
+        pkgs = []
+        for _ in range(n):
+            p = list(base)
+            if r.maybe(0.4): p = p + [r.pick(PKG_SEGS)]
+            if r.maybe(0.15) and len(p) > 1: p = p[:-1]
+            if r.maybe(0.1): p[-1] = p[-1] + r.pick(["x", "1", "beta"])
+            pkgs.append(".".join(p))
+        try:
+            nm = Naming.build(*[descriptor_pb2.FileDescriptorProto(name=f"f{k}.proto", package=p) for k, p in enumerate(pkgs)])
+            impl = {"match": True, "ns": [x.lower() for x in nm.namespace], "name": nm.name.lower(), "version": nm.version, "versioned": nm.versioned_module_name,
+                    "root": nm.proto_package, "raw_ns": list(nm.namespace), "raw_name": nm.name}
+        except (ValueError, AttributeError, TypeError) as e:
+            impl = {"match": False, "err": type(e).__name__}
+        ops.append({"op": "c11.naming", "pkgs": pkgs}); metas.append(("naming", pkgs, impl))
+    for i in range(ctx.n(150, 2500)):
+        parts = []
+        for _ in range(r.randint(0, 5)):
+            k = r.pick(OPT_KEYS); v = r.pick(OPT_VALS)
+            parts.append(k if v is None else f"{k}={v}")
+            if r.maybe(0.1): parts[-1] = " " + parts[-1] + " "
+        s = ",".join(parts)
+        with warnings.catch_warnings(record=True) as w:
+            warnings.simplefilter("always")
+            try:
+                o = Options.build(s)
+                impl = {"name": o.name, "namespace": list(o.namespace), "warehouse": o.warehouse_package_name, "autogen": o.autogen_snippets, "lazy": o.lazy_import,
+                        "old": o.old_naming, "iam": o.add_iam_methods, "metadata": o.metadata, "transport": list(o.transport), "numeric": o.rest_numeric_enums,
+                        "deps": list(o.proto_plus_deps)}
+            except Exception as e:
+                impl = {"err": f"{type(e).__name__}: {e}"}
+        if "err" not in impl:
+            impl["unrecognised"] = [str(x.message).split("`python-gapic-", 1)[1].rstrip(".").rstrip("`") for x in w if "Unrecognized option" in str(x.message)]
+        ops.append({"op": "c11.opts", "s": s}); metas.append(("opts", s, impl))
+    for (kind, inp, impl), mo in zip(metas, ctx.driver.ask(ops)):
+        ctx.case(distinct_key=[kind, json.dumps(inp)]); ctx.traces += 1
+        if kind == "naming":
+            ctx.count("naming", "match" if impl["match"] else "rejected:" + impl.get("err", ""))
+            if impl["match"] != mo.get("match"):
+                # an empty root package is a ValueError in both; anything else the model does not predict is a disagreement
+                ctx.disagree("T2:c11.Naming.build", f"packages {inp}: model match={mo.get('match')} (root {mo.get('root')!r}) vs impl {impl}", {"op": {"op": "c11.naming", "pkgs": inp}})
+                continue
+            if impl["match"]:
+                for k in ("ns", "name", "version", "versioned", "root"):
+                    if mo.get(k) != impl[k]:
+                        ctx.disagree("T2:c11.Naming.build", f"packages {inp}: {k}: model {mo.get(k)!r} vs impl {impl[k]!r}", {"op": {"op": "c11.naming", "pkgs": inp}})
+                        break
+                # the package root every output path hangs under is non-empty and has no separators
+                if not impl["name"] or "/" in impl["versioned"] or any((not x) or "/" in x for x in impl["ns"]):
+                    ctx.fail("naming-gives-bad-root", f"packages {inp}: namespace {impl['raw_ns']} name {impl['raw_name']!r} version {impl['version']!r}", {"pkgs": inp})
+        else:
+            if "err" in impl:
+                ctx.fail("options-raise", f"Options.build({inp!r}) raises {impl['err']}", {"opts": inp})
+                continue
+            ctx.count("options", "with-unrecognised" if impl["unrecognised"] else "clean")
+            for k, v in impl.items():
+                if mo.get(k) != v:
+                    ctx.disagree("T2:c11.Options.build", f"option string {inp!r}: {k}: model {mo.get(k)!r} vs impl {v!r}", {"op": {"op": "c11.opts", "s": inp}})
+                    break
+
 
 def run_case(ctx, case, label):
     files, targets = build_files(case)
@@ -250,6 +327,7 @@ def run(ctx):
     ctx.assume("sub-packages are generated one level deep only (deeper nesting is DESIGN §9-F7, outside this profile)")
     r = ctx.rng("layout")
     t2_filenames(ctx, r)
+    t2_naming_options(ctx, r)
     for c in CORPUS:
         run_case(ctx, c, "corpus")
         ctx.case({"case": c["pkg"], "unknown": c["unknown"]}, distinct_key=["case", json.dumps(c, sort_keys=True)])
